@@ -111,8 +111,21 @@ def u1():
         [5, 6], [1, 5, 6], [1, 5], [7, 8], [9, 10], [3, 9, 10], [11, 13], [3, 11, 13], [4, 11],
         [12, 17], [4, 14, 15], [14, 15], [4, 16], [18, 19], [4, 18], [1, 3], [4, 4],
         []]                                          # an empty headers message
-    return _mk(H, {1: 1, 3: 3}, 2, [0, 7], [4, 13], 2, 3, batches=B,
-               init_chains=[(0,), (0, 1), (0, 1, 2, 3), (0, 1, 2, 3, 4), (0, 1, 2, 3, 4, 12)])
+    u = _mk(H, {1: 1, 3: 3}, 2, [0, 7], [4, 13], 2, 3, batches=B,
+            init_chains=[(0,), (0, 1), (0, 1, 2, 3), (0, 1, 2, 3, 4), (0, 1, 2, 3, 4, 12)])
+    # peer 2 may also connect without SFNodeNetwork: connected, heard, never a sync CANDIDATE
+    u["light_peers"] = [2]
+    u["light_start"] = [0]
+    return u
+
+
+def u1l():
+    """u1 with the full non-candidate dimension (thorough tier): either peer may connect without
+    SFNodeNetwork, with either advertised height."""
+    u = u1()
+    u["light_peers"] = [1, 2]
+    u["light_start"] = list(u["start_heights"])
+    return u
 
 
 def deep():
@@ -211,7 +224,7 @@ def cpalt():
                init_chains=[(0, 1), (0, 1, 2), (0, 1, 2, 3)])
 
 
-UNIVERSES = {"cpalt": cpalt, "quick": quick, "small": small, "u1": u1, "deep": deep, "retarget": retarget, "stale": stale}
+UNIVERSES = {"u1l": u1l, "cpalt": cpalt, "quick": quick, "small": small, "u1": u1, "deep": deep, "retarget": retarget, "stale": stale}
 
 
 def tla(u):
@@ -232,6 +245,9 @@ def tla(u):
            "CpId(h) == " + ("CASE " + cpid + " [] OTHER -> -7" if cps else "-7"),
            "MaxHeight == %d" % max(h["height"] for h in hs),
            "NPeers == %d" % u["npeers"],
+           # peers that may also connect WITHOUT offering SFNodeNetwork (not sync candidates)
+           "LightPeers == {" + ", ".join(str(x) for x in u.get("light_peers", [])) + "}",
+           "LightStart == {" + ", ".join(str(x) for x in u.get("light_start", u["start_heights"])) + "}",
            "StartHeights == {" + ", ".join(str(x) for x in u["start_heights"]) + "}",
            "InvIds == {" + ", ".join(str(x) for x in u["inv_ids"]) + "}",
            "MaxCF == %d" % u["max_cf"],
